@@ -1,20 +1,26 @@
 import RtenVerif.Lemmas.RtenHeader
 import RtenVerif.Lemmas.F16Exact
 import RtenVerif.Generated.ConverterHeader
+import RtenVerif.Lemmas.F64ToF32
+import RtenVerif.Generated.ConverterConsts
 
 /-!
 # C20 — A model converted to .rten behaves like the ONNX original  (PARTIAL)
 
-The end-to-end claim (convert with `rten-convert`, load both files, compare outputs) cannot be
-decided in this sandbox: the converter imports `onnx`, `flatbuffers` and `google.protobuf`, none
-of which is installed.  What is decided here is the part of the claim that is logic shared by
-the two paths and expressible without running the converter:
+The end-to-end claim (convert with `rten-convert`, load both files, compare outputs) is exercised
+by the harness, which runs the real converter (its two missing third-party dependencies replaced
+by shims) on thousands of generated models.  What is *proved* here is the part of the claim that
+is logic shared by the two paths:
 
 * the `.rten` V2 container written by the converter's `write_header` is exactly what
   `Header::from_buf` reads (layout equality re-checked against the converter source on every
   run, plus the round-trip theorem);
 * integer constants narrowed to i32 saturate identically in both paths;
-* every f16 bit pattern is converted to an f32 of exactly the same value (hence "nearest f32").
+* every f16 bit pattern is converted to an f32 of exactly the same value (hence "nearest f32");
+* the f64 → f32 conversion model is round-to-nearest, ties-to-even, with the IEEE overflow rule
+  (second part of this file, namespace `RtenVerif.ConstNarrow`);
+* bool constants become 0/1 identically, and the dtype → rule tables of the two loaders
+  (regenerated from converter.py and onnx_loader.rs on every run) agree.
 -/
 namespace RtenVerif.RtenHeader
 open RtenVerif.Generated
@@ -208,3 +214,127 @@ identity clause is needed). -/
 example : satCastI64ToI32 (2 ^ 40) = i32Max ∧ satCastI64ToI32 (-(2 ^ 63)) = i32Min := by decide
 
 end RtenVerif.RtenHeader
+
+/-! ## f64 → f32, bool, and the rule tables -/
+namespace RtenVerif.ConstNarrow
+open RtenVerif.Generated
+
+theorem f32OfScaled_le_inf (M E : Nat) : f32OfScaled M E ≤ f32Inf := by
+  by_cases hM : M = 0
+  · subst hM
+    have h0 : f32OfScaled 0 E = 0 := by unfold f32OfScaled; simp
+    rw [h0]; exact Nat.zero_le _
+  · obtain ⟨q, k, _, _, _, hdef, _⟩ := f32OfScaled_parts M E hM
+    rw [hdef]
+    split <;> omega
+
+/-- **C20.T5 (f64 → f32 is round-to-nearest-even).** For every finite f64 magnitude bit pattern
+`b` (exponent field ≠ 2047) with result `r = f64ToF32Mag b`, values scaled by `2^1074`:
+* if `r` is finite then no finite f32 `y` is closer to the exact value than `r`
+  (`|x − r| ≤ |x − y|`), and whenever a *different* f32 value is exactly as close, `r`'s last
+  mantissa bit is 0 (ties to even);
+* `r` is infinity exactly when `x ≥ 2^128 − 2^103` (the midpoint between `f32::MAX` and
+  `2^128`; IEEE 754 overflow rule for round-to-nearest);
+* `r` never exceeds the bit pattern of infinity (finite inputs never produce NaN). -/
+theorem c20_f64_to_f32_nearest (b y : Nat) (hb : b / 2 ^ 52 ≠ 2047) (_hy : y < f32Inf) :
+    (f64ToF32Mag b < f32Inf →
+      absDiff (f64MagValue b) (f32MagValue (f64ToF32Mag b)) ≤ absDiff (f64MagValue b) (f32MagValue y) ∧
+      (f32MagValue (f64ToF32Mag b) ≠ f32MagValue y →
+        absDiff (f64MagValue b) (f32MagValue (f64ToF32Mag b)) = absDiff (f64MagValue b) (f32MagValue y) →
+        f64ToF32Mag b % 2 = 0)) ∧
+    (f64ToF32Mag b = f32Inf ↔ (2 ^ 25 - 1) * 2 ^ 1177 ≤ f64MagValue b) ∧
+    f64ToF32Mag b ≤ f32Inf := by
+  have hdef : f64ToF32Mag b = f32OfScaled (f64Sig b) (f64Exp b) := by
+    unfold f64ToF32Mag; simp [hb]
+  rw [hdef, f64MagValue_eq]
+  refine ⟨?_, f32OfScaled_overflow _ _, f32OfScaled_le_inf _ _⟩
+  intro hfin
+  obtain ⟨n, c, hv, hn, hc⟩ := f32_finite_form y
+  rw [hv]
+  exact f32OfScaled_nearest _ _ n c hc hn hfin
+
+/-- **C20.T5b (specials).** Infinity maps to infinity, every NaN to a NaN, the sign bit is
+copied, for every bit pattern `b` (`b < 2^64` for an actual f64). -/
+theorem c20_f64_to_f32_special (b : Nat) :
+    f64ToF32Bits b / 2 ^ 31 = b / 2 ^ 63 ∧
+    ((b % 2 ^ 63) / 2 ^ 52 = 2047 → (b % 2 ^ 63) % 2 ^ 52 = 0 → f64ToF32Bits b % 2 ^ 31 = f32Inf) ∧
+    (isNaN64 b = true → isNaN32 (f64ToF32Bits b) = true) := by
+  have e31 : (2 : Nat) ^ 31 = 2147483648 := by decide
+  have e23 : (2 : Nat) ^ 23 = 8388608 := by decide
+  have e22 : (2 : Nat) ^ 22 = 4194304 := by decide
+  have hmag : f64ToF32Mag (b % 2 ^ 63) < 2 ^ 31 := by
+    unfold f64ToF32Mag
+    split
+    · split
+      · unfold f32Inf; omega
+      · have := Nat.mod_lt (b % 2 ^ 63 % 2 ^ 52 / 2 ^ 29) (Nat.two_pow_pos 22)
+        omega
+    · have := f32OfScaled_le_inf (f64Sig (b % 2 ^ 63)) (f64Exp (b % 2 ^ 63))
+      unfold f32Inf at this; omega
+  refine ⟨?_, ?_, ?_⟩
+  · unfold f64ToF32Bits
+    rw [e31] at hmag ⊢
+    omega
+  · intro h1 h2
+    unfold f64ToF32Bits
+    have : f64ToF32Mag (b % 2 ^ 63) = f32Inf := by unfold f64ToF32Mag; simp [h1, h2]
+    rw [this]; unfold f32Inf; rw [e31]; omega
+  · intro hn
+    unfold isNaN64 at hn
+    simp only [decide_eq_true_eq] at hn
+    obtain ⟨h1, h2⟩ := hn
+    have h3 : b % 2 ^ 63 % 2 ^ 52 = b % 2 ^ 52 := Nat.mod_mod_of_dvd b (Nat.pow_dvd_pow 2 (by omega))
+    have hm : f64ToF32Mag (b % 2 ^ 63) = 0x7fc00000 + (b % 2 ^ 52 / 2 ^ 29) % 2 ^ 22 := by
+      unfold f64ToF32Mag; rw [h3]; simp [h1, h2]
+    have hlt := Nat.mod_lt (b % 2 ^ 52 / 2 ^ 29) (Nat.two_pow_pos 22)
+    unfold isNaN32 f64ToF32Bits
+    simp only [decide_eq_true_eq]
+    rw [hm, e31, e23]
+    rw [e22] at hlt ⊢
+    omega
+
+/-- **C20.T6 (bool).** A bool constant byte / `int32_data` element becomes 0 or 1, identically in
+the loader (`!= 0`) and in the converter (numpy bool view + `astype(int32)`). -/
+theorem c20_bool_narrowing_agrees (x : Int) :
+    numpyBoolAsInt32 x = loaderBool x ∧ (loaderBool x = 0 ∨ loaderBool x = 1) ∧ (loaderBool x = 0 ↔ x = 0) := by
+  unfold numpyBoolAsInt32 loaderBool
+  by_cases h : x = 0 <;> simp [h]
+
+/-- **C20.T7 (rule tables).** The dtype → conversion-rule table extracted from the ONNX loader's
+`load_constant` is fully recognised, never wraps, and the converter's
+`constant_node_from_onnx_initializer` applies the same rule to every dtype the loader supports;
+the converter's own table is fully recognised and never wraps either; and the loader's
+saturating cast is the clamp the model `satCastI64ToI32` describes. -/
+theorem c20_const_rules_agree :
+    (∀ p ∈ loaderConstRules, p.2 ≠ .unrecognised ∧ p.2 ≠ .wrapI64 ∧ ruleOf converterConstRules p.1 = p.2) ∧
+    (∀ p ∈ converterConstRules, p.2 ≠ .unrecognised ∧ p.2 ≠ .wrapI64) ∧
+    ruleOf loaderConstRules "INT64" = .satI64 ∧ ruleOf loaderConstRules "BOOL" = .boolToI32 ∧
+    ruleOf loaderConstRules "DOUBLE" = .f64ToF32 ∧ ruleOf loaderConstRules "FLOAT16" = .f16ToF32 ∧
+    loaderSatCastBody = "x.clamp(i32::MIN as i64, i32::MAX as i64) as i32" := by
+  decide
+
+/-- The converter accepts one dtype more than the loader (int16, widened to i32): for such a
+constant there is no reference behaviour to compare with. -/
+example : ruleOf converterConstRules "INT16" = .widenI16 ∧ ruleOf loaderConstRules "INT16" = .unsupported := by
+  decide
+
+/-- Non-vacuity / sanity of the conversion model on concrete patterns: 1.0; the smallest f64
+above 1.0 (rounds down); the halfway point between 1.0 and its f32 successor (tie → even = 1.0);
+halfway between the next two (tie → even = upper); just below `2^128 − 2^103` → `f32::MAX`,
+exactly there → infinity; `2^-150` (tie between 0 and the smallest subnormal → 0); just above →
+smallest subnormal; a quiet NaN. -/
+example : f64ToF32Mag 0x3FF0000000000000 = 0x3F800000 ∧ f64ToF32Mag 0x3FF0000000000001 = 0x3F800000 ∧
+    f64ToF32Mag 0x3FF0000010000000 = 0x3F800000 ∧ f64ToF32Mag 0x3FF0000030000000 = 0x3F800002 ∧
+    f64ToF32Mag 0x47EFFFFFEFFFFFFF = 0x7F7FFFFF ∧ f64ToF32Mag 0x47EFFFFFF0000000 = 0x7F800000 ∧
+    f64ToF32Mag 0x3690000000000000 = 0 ∧ f64ToF32Mag 0x3690000000000001 = 1 ∧
+    f64ToF32Mag 0x7FF8000000000000 = 0x7FC00000 := by decide +kernel
+
+/-- The hypotheses of `c20_f64_to_f32_nearest` are met by ordinary values, and its tie clause is
+not vacuous: for `x` halfway between 1.0 and the next f32, `y = 0x3F800001` is a different value
+at exactly the same distance, and the result `0x3F800000` is even. -/
+example : (0x3FF0000010000000 : Nat) / 2 ^ 52 ≠ 2047 ∧ (0x3F800001 : Nat) < f32Inf ∧
+    absDiff (f64MagValue 0x3FF0000010000000) (f32MagValue 0x3F800000) =
+      absDiff (f64MagValue 0x3FF0000010000000) (f32MagValue 0x3F800001) ∧
+    f32MagValue 0x3F800000 ≠ f32MagValue 0x3F800001 := by decide +kernel
+
+end RtenVerif.ConstNarrow
